@@ -98,6 +98,12 @@ def setup():
             out = orig(self, point, mol_idx, node_key, start=start)
             st = STATE.get("cur")
             if st is not None and st["engine"] in (None, self):
+                if not st["in_update"] and st["supplied"].get(mol_idx):
+                    # a placement that does not come from update_positions is a start on the grid: a molecule that has
+                    # positioned residues is continued from them ("only ever grown from a positioned neighbour")
+                    st["viol"].append(("grid-start-in-a-molecule-with-positioned-residues",
+                                       "residue %s of molecule %d is put on a start point although residues %s of that molecule "
+                                       "are positioned" % (node_key, mol_idx, sorted(st["supplied"][mol_idx]))))
                 st["shadow"][(mol_idx, node_key)] = np.array(point, dtype=float)
                 st["adds"] += 1
             return out
